@@ -911,6 +911,6 @@ Example class_deleted_then_recreated :
               KPut (kc "other" 0 0)%N; ISwap [];
               KPut (kc "ctl" 0 1)%N; KPut (kc "ctl" 1 1)%N; ISwap [];
               KPut (kc "ctl" 1 0)%N; IPut (mk "a/i2" (Some "nginx") None); ISwap []] in
-  map snd (s_obs (run2 c [(kc "ctl" 0 0)%N] ops)) =
-  [["a/i1"; "a/i2"]; ["a/i2"]; ["a/i2"]; ["a/i2"; "a/i1"]; ["a/i1"]].
+  map (fun x => (snd (fst x), snd x)) (s_obs (run2 c [(kc "ctl" 0 0)%N] ops)) =
+  [(["a/i1"; "a/i2"], ["a/i1"]); (["a/i2"], []); (["a/i2"], []); (["a/i2"; "a/i1"], ["a/i1"]); (["a/i1"], ["a/i1"])].
 Proof. vm_compute. reflexivity. Qed.
